@@ -97,6 +97,9 @@ M = [
  ('M17 (snapshot, finding open) minusEqual(clearZero) erases the first basis instead of the merged one', 'src/Factored/Utils/FactoredVectorOps.cpp',
   """                    retval.bases.erase(std::begin(retval.bases) + i);""",
   """                    retval.bases.erase(std::begin(retval.bases));"""),
+ ('M18 JointActionLearner counts the action of agent a instead of the a-th OTHER agent (forgets the skip)', 'src/Factored/MDP/Algorithms/JointActionLearner.cpp',
+  """            stateActionCounts_[s][a][aa[i]] += 1;""",
+  """            stateActionCounts_[s][a][aa[a] < stateActionCounts_[s][a].size() ? aa[a] : aa[i]] += 1;"""),
  ('F13 (on the repaired tree) minusEqual appends the unmerged basis un-negated', 'src/Factored/Utils/FactoredVectorOps.cpp',
   """            retval.bases.push_back(basis);
             retval.bases.back().values *= -1.0;""",
